@@ -32,6 +32,7 @@ def main():
     except Exception as e:
         r = {'error': '%s: %s' % (type(e).__name__, e), 'trace': traceback.format_exc()[-3000:]}
     r['unit_wall_s'] = round(time.time() - t0, 1)
+    r['solver_stats'] = {k: (round(v, 1) if isinstance(v, float) else v) for k, v in core.SOLVER_STATS.items()}
     print('\n@@RESULT@@' + json.dumps(r, default=str))
 
 
